@@ -17,6 +17,9 @@ from concurrent.futures import ProcessPoolExecutor, as_completed
 
 ROOT = os.path.dirname(os.path.dirname(os.path.abspath(__file__)))
 NPROC = int(os.environ.get("VVERIF_NPROC", str(min(16, os.cpu_count() or 4))))
+# evidence and replay files of a run against another tree than /repo (seeded-change tooling) go to a scratch directory
+_ALT = os.environ.get("VVERIF_REPO", "/repo") != "/repo"
+OUT = os.path.join(ROOT, ".cache", "alt-" + hashlib.sha256(os.environ.get("VVERIF_REPO", "").encode()).hexdigest()[:10]) if _ALT else ROOT
 
 
 class Undecided(Exception):
@@ -279,11 +282,11 @@ def main(argv=None):
 
     # ---- replay refutations natively
     known, fixed = load_known(pid)
-    os.makedirs(os.path.join(ROOT, "replays"), exist_ok=True)
+    os.makedirs(os.path.join(OUT, "replays"), exist_ok=True)
     if not a.only:
-        for fn in os.listdir(os.path.join(ROOT, "replays")):
+        for fn in os.listdir(os.path.join(OUT, "replays")):
             if fn.startswith(pid + "-"):
-                os.unlink(os.path.join(ROOT, "replays", fn))
+                os.unlink(os.path.join(OUT, "replays", fn))
     violations, known_hits, engine_defects = [], [], []
     seen_keys = set()
     for o in refuted:
@@ -318,7 +321,7 @@ def main(argv=None):
         vio_keys.add(key)
         safe = "".join(c if c.isalnum() or c in "-_." else "_" for c in key)[:120]
         path = os.path.join("replays", f"{pid}-{safe}.json")
-        with open(os.path.join(ROOT, path), "w") as f:
+        with open(os.path.join(OUT, path), "w") as f:
             json.dump({"property": pid, "obligation": o, "how": f".venv/bin/python -m vverif replay {pid} --file {path}"}, f, indent=1, default=str)
         tail = "" if o["replay_result"].get("reproduced") else " no-failing-input-found"
         lines.append(f"VIOLATION property={pid} replay={path}{tail}")
@@ -339,7 +342,7 @@ def main(argv=None):
         gseen.add(g)
         safe = "".join(c if c.isalnum() or c in "-_." else "_" for c in g)[:120]
         path = os.path.join("replays", f"{pid}-undischarged-{safe}.json")
-        with open(os.path.join(ROOT, path), "w") as f:
+        with open(os.path.join(OUT, path), "w") as f:
             json.dump({"property": pid, "obligation": o, "failed_obligation": o["id"], "solver_output": o.get("note", "unknown from every back end at 4x budget"),
                        "changed_functions": sorted(changed_fns & set(jobs_by_id[o["job"]].get("functions", [])))}, f, indent=1, default=str)
         lines.append(f"VIOLATION property={pid} replay={path} no-failing-input-found")
@@ -362,7 +365,7 @@ def main(argv=None):
     for o in und_plain[:10]:
         print(f"UNDECIDED {o['id']} {o.get('note', '')}")
     if und_plain or expected_unknown:
-        with open(os.path.join(ROOT, "replays", f"{pid}-undecided.txt"), "w") as f:
+        with open(os.path.join(OUT, "replays", f"{pid}-undecided.txt"), "w") as f:
             for o in und_plain + expected_unknown:
                 f.write(f"{o['id']}\t{o.get('note', '')}\n")
 
@@ -446,8 +449,8 @@ def main(argv=None):
             "wall_s": wall,
             "violations": len(vio_keys) + len(gseen),
         }
-        os.makedirs(os.path.join(ROOT, "evidence"), exist_ok=True)
-        json.dump(ev, open(os.path.join(ROOT, "evidence", pid + ".json"), "w"), indent=1, default=str)
+        os.makedirs(os.path.join(OUT, "evidence"), exist_ok=True)
+        json.dump(ev, open(os.path.join(OUT, "evidence", pid + ".json"), "w"), indent=1, default=str)
     return exit_code
 
 
